@@ -147,7 +147,9 @@ func CheckTimeValidity(availTimeS, nowS, timeShiftBufferDepthS, availabilityTime
 	if availabilityTimeOffsetS > 0 {
 		availTimeS -= availabilityTimeOffsetS
 	}
-	if availTimeS > nowS {
+	// Times are whole milliseconds, but as float64 seconds they carry rounding errors of the order 1e-7,
+	// so a segment must not be refused at exactly its availability time.
+	if availTimeS-nowS > 1e-6 {
 		return newErrTooEarly(int(math.Round((availTimeS - nowS) * 1000.0)))
 	}
 	if availTimeS < nowS-(timeShiftBufferDepthS+timeShiftBufferDepthMarginS) {
